@@ -15,7 +15,7 @@ MIN_CLTV_EXPIRY_DELTA = 48
 
 EVIDENCE = dict(
     assumptions=['block heights < 2^31 (u32 heights; >= 2^32-2016 overflows `cur_height + const` and panics in the dev profile — outside the claim)',
-                 'only the per-HTLC inequalities are decided; should_broadcast_holder_commitment_txn, the end-to-end race and holding-cell time-outs are outside the claim'],
+                 'only per-HTLC decisions are decided (one HTLC at a time: admission, acceptance, and the go-on-chain decision of should_broadcast_holder_commitment_txn as one loop iteration each); the end-to-end race against the chain and holding-cell time-outs are outside the claim'],
 )
 
 
@@ -81,6 +81,7 @@ def run(S):
     S.witness('C08.c.witness', E, pre, rv.t)
     height_timer(S, D)
     final_hop(S, D)
+    go_onchain(S, D)
     from .C02 import forward_admission_manager
     forward_admission_manager(S, D, 'C08.e')
 
@@ -179,3 +180,73 @@ def final_hop(S, D):
             [b], bounds='heights < 2^31')
     S.no_panic('C08.f.nopanic', E, pre + [X.zint(hop.d) != HV('Dummy')], 'no overflow for heights < 2^31 (the Dummy hop arm is a debug_assert!(false): such hops are peeled before this function)', [b])
     S.witness('C08.f.witness', E, pre + plain, ok)
+
+
+LATENCY_GRACE_PERIOD_BLOCKS = 3
+CLTV_CLAIM_BUFFER = 36          # MAX_BLOCKS_FOR_CONF * 2 (BOLT-2's "deadline for on-chain HTLC resolution" margin)
+
+
+def go_onchain(S, D):
+    """C08.g: ChannelMonitorImpl::should_broadcast_holder_commitment_txn - when an unresolved HTLC makes the node go
+    on chain. The function scans the HTLCs of the holder commitment and of both unrevoked counterparty commitments in
+    three loops; ONE iteration of each loop is executed from an arbitrary loop-head state (any number of HTLCs before
+    and after), with the iterator, the preimage map lookup and the logger as stubs."""
+    import re
+    names = ('holder', 'counterparty_current', 'counterparty_previous')
+    ids = ['C08.g.go_onchain_iff.' + n for n in names] + ['C08.g.nopanic.' + n for n in names] + ['C08.g.witness', 'C08.g.validate', 'C08.g.margins']
+    if all(S._skip(o) for o in ids):
+        return
+    f = S.fn('should_broadcast_holder_commitment_txn')
+    probe = X.FnRun(S.engine(), f, [X.Ref(0), X.Opaque('logger')], True, {})
+    succ, rpo, back, encl = probe.analyse_cfg()
+    heads = sorted({h for (u, h) in back if f.blocks[h][1][0] == 'call' and 'Iterator>::next' in str(f.blocks[h][1][2])})
+    if len(heads) != 3:
+        raise X.Unsupported('expected three HTLC scan loops in should_broadcast_holder_commitment_txn, found %d' % len(heads))
+    HO = D.struct_fields('HTLCOutputInCommitment')
+    first = True
+    for name, head in zip(names, heads):
+        E = S.engine(unwind=1)
+        mem = {}
+        me = E.sym('self', f.params[0][1], mem)
+        htlc = E.sym('htlc', '&ln::chan_utils::HTLCOutputInCommitment', mem)
+        known = z3.Bool('env.preimage_known')
+        E.models.insert(0, (re.compile(r' as Iterator>::next$'), lambda *a, htlc=htlc: X.En('Option', 1, {1: [htlc]})))
+        E.models.insert(0, (re.compile(r'HashMap::<.*>::contains_key::<'), lambda *a, known=known: X.B(known)))
+        height = E.sym('height', 'u32')
+        run = X.FnRun(E, f, [me, X.Opaque('logger')], True, mem)
+        loc = lambda nm: int(f.debug[nm].lstrip('_'))
+        E.depth += 1
+        rv, ret, m2 = run.run(start_bb=head, init={loc('height'): height})
+        E.depth -= 1
+        mem.update(m2)
+        hv = mem[htlc.cell]
+        offered = X.zbool(E.read_path(hv, (('f', HO.index('offered'), 'bool'),), mem, True, 'spec').t)
+        cltv = E.read_path(hv, (('f', HO.index('cltv_expiry'), 'u32'),), mem, True, 'spec').t
+        closes = z3.And(X.zbool(ret), X.zint(rv.d) == 1) if rv is not None else z3.BoolVal(False)
+        cont = X.zbool(E.merge_mem(run.cut_states)[0]) if run.cut_states else z3.BoolVal(False)
+        # an HTLC is ours to time out (outbound) iff it is offered in OUR commitment / received in THEIRS
+        outbound = offered if name == 'holder' else z3.Not(offered)
+        spec = z3.Or(z3.And(outbound, cltv + LATENCY_GRACE_PERIOD_BLOCKS <= height.t),
+                     z3.And(z3.Not(outbound), known, cltv <= height.t + CLTV_CLAIM_BUFFER))
+        pre = [cltv < 500000000, height.t < (1 << 31)]      # block-height locktimes only (update_add_htlc refuses others)
+        panic = z3.Or(*[X.zbool(p[0]) for p in E.panics]) if E.panics else False
+
+        def line_fn(v):
+            ob, kn, cl, hh = v
+            role = 0 if ob else (1 if kn else 2)
+            d = max(-45, min(8 if role != 2 else 0, hh - cl))
+            return '%d %d' % (role, d)
+        b = Binding('htlc_timeout_probe', [z3.If(outbound, 1, 0), z3.If(known, 1, 0), cltv, height.t], [z3.If(closes, 1, 0)], line_fn=line_fn,
+                    which='oracle_tu', panic=panic)
+        S.prove('C08.g.go_onchain_iff.' + name, E, pre, z3.And(closes == spec, cont == z3.Not(spec)),
+                'scanning the %s commitment: an HTLC makes the monitor go on chain iff it is an outbound HTLC that expired at least LATENCY_GRACE_PERIOD_BLOCKS (3) blocks ago, or an inbound HTLC whose preimage is known and that expires within CLTV_CLAIM_BUFFER (36) blocks; otherwise the scan moves on to the next HTLC' % name.replace('_', ' '),
+                [b], bounds='one loop iteration from an arbitrary loop-head state (any number of HTLCs), expiries < 500000000, heights < 2^31')
+        S.no_panic('C08.g.nopanic.' + name, E, pre, 'no overflow in cltv_expiry + 3 / height + 36', [b])
+        if first:
+            first = False
+            S.prove('C08.g.margins', E, pre, z3.And(z3.Implies(z3.And(z3.Not(outbound), known, height.t + CLTV_CLAIM_BUFFER >= cltv), closes),
+                                                     z3.Implies(z3.And(outbound, height.t >= cltv + LATENCY_GRACE_PERIOD_BLOCKS), closes),
+                                                     z3.Implies(z3.And(outbound, height.t < cltv + LATENCY_GRACE_PERIOD_BLOCKS), z3.Not(closes))),
+                    'in time, and not early: with the preimage in hand the node is on chain while at least 36 blocks remain before the payer can time the HTLC out; an expired outbound HTLC is taken on chain from the third block after expiry on, never before (the peer gets its grace period to fail it off chain)', [b])
+            S.witness('C08.g.witness', E, pre + [z3.Not(outbound), known], closes)
+            S.validate('C08.g.validate', E, b, n=10, extra_vectors=[(1, 0, 1000, 1000 + k) for k in range(0, 6)] + [(0, 1, 1000, 1000 - 40 + k) for k in range(0, 8)] + [(0, 0, 1000, 1000 - 38), (0, 0, 1000, 1000 - 30)])
